@@ -59,6 +59,9 @@ def generate(tier, rng):
         cfg = rng.choice(gens.cfgs(key=key))
         yield Script(cfg, boundary_script(rng, key, i % 2 == 1), "boundaries")
         yield Script(cfg, c09.history(rng, key, 60 if tier == "quick" else 150), "mixed-history")
+    for key in ((0, 0), (0x0123456789abcdef, 0xfedcba9876543210)):
+        for cfg in gens.cfgs(key=key)[:2]:
+            yield Script(cfg, gens.control_on_established(rng, key), "control-on-established")
 
 
 def is_tcp(frame):
